@@ -268,6 +268,17 @@ SCENARIOS = {
 }
 DEFAULT_ENDS = (0, 1, 3)
 
+# minimised past failures (replayed first): (case, schedule of thread ids)
+SCHEDULE_CORPUS = [
+    # DataLinkConnection.enqueue tested the socket state outside the lock: app2 closes the socket between the
+    # link thread's test "state.CONNECT" and its append of the CC; app1's connect() is woken by the close, finds
+    # the CC, sets ESTABLISHED (the closed socket is revived), close() removes it from the access point, app1's
+    # recv() then waits on a socket that terminate() no longer reaches          (fixes/c09-8)
+    ({'scenario': 'close-vs-term', 'cause': 'commerr', 'end_at': 4, 'role': 'target'},
+     [0, 0, 0, 2, 0, 2, 2, 2, 2, 2, 2, 2, 2, 2, 2, 1, 1, 1, 1, 1, 2, 2, 2, 2, 2, 0, 0, 0, 2, 2, 2, 2, 2, 2, 2, 2, 2, 2,
+      2, 2, 2, 1, 1, 2, 2, 2, 2, 2, 2, 2, 2, 2]),
+]
+
 
 # ------------------------------------------------------------------------------------------------
 # calls issued after termination (each in its own thread, started after run() has ended)
@@ -413,6 +424,8 @@ def tree_is_fixed():
             return False
         if 'with self.lock' not in inspect.getsource(llcmod.LogicalLinkController.accept):
             return False
+        if 'with self.lock' not in inspect.getsource(tco.DataLinkConnection.enqueue).split('self.log(')[0]:
+            return False
         llc = llcmod.LogicalLinkController(sec=False)
         a = nfc.llcp.Socket(llc, LDL)
         a.bind(40)
@@ -557,6 +570,16 @@ class Correspondence(object):
         object's own lock that closes the object notifies all its conditions"""
         for sg in rec['segs']:
             kind = sg['pre'][0]
+            # invariant of the model on which the atomicity of the link thread's enqueue rests
+            # (Proofs/LlcLife.sock_ok: a closed DLC has an empty receive queue)
+            for snap in (sg['pre'], sg['post']):
+                if snap[0] == 'DLC' and snap[1] == 'SHUTDOWN' and snap[4] != '-':
+                    self.nmis += 1
+                    self.ck.count('closed-dlc-has-queue:' + rec['api'].split(':')[-1])
+                    if self.strict:
+                        self.ck.correspondence_mismatch('closed DLC socket with a non-empty receive queue (model invariant)',
+                                                        {'api': rec['api'], 'state': snap})
+                    break
             own = (sg['lock'] == 'sock') or kind == 'SDP'
             if not own:
                 continue
@@ -876,7 +899,12 @@ def main():
                 sel.append({'scenario': name, 'cause': cause, 'end_at': ends[k], 'role': roles[(ci + len(name)) % 2]})
         extra = ck.rng.sample([p for p in plan if p not in sel], 40)
         plan = sel + extra
-    connect_returns(ck)          # starts with the corpus of minimised past failures
+    for case, schedule in SCHEDULE_CORPUS:
+        out = run_case(case, S.Replay(schedule))
+        found |= set(monitor(ck, case, out))
+        note_case(ck, case, out, ('corpus',))
+        total += 1
+    connect_returns(ck)          # starts with its own corpus of minimised past failures
     for case in plan:
         runs, keys = explore(ck, case, per_case_budget, depth2, nrandom)
         total += runs
